@@ -578,6 +578,6 @@ pub fn c14(run: &mut Run) {
             let _ = std::fs::remove_file(&stats);
         }
     }
-    crate::fuzzdrv::campaign(run, "fz_c14", 12_800_000);
-    crate::fuzzdrv::campaign(run, "fz_c14f", 12_800_000);
+    crate::fuzzdrv::campaign(run, "fz_c14", 38_400_000);
+    crate::fuzzdrv::campaign(run, "fz_c14f", 38_400_000);
 }
